@@ -479,6 +479,10 @@ def _structure_union(data: Any, union_type: type) -> Any:
 
                     # Get the mapping using the get_mapping method
                     mapping = metadata.get_mapping()
+                    # Without an explicit mapping the discriminator value is the schema name of the variant
+                    # (OpenAPI's implicit mapping)
+                    if not mapping:
+                        mapping = {arg.__name__: arg for arg in args if isinstance(arg, type) and arg is not type(None)}
 
                     if mapping and discriminator_value in mapping:
                         variant = mapping[discriminator_value]
